@@ -1,6 +1,7 @@
 package drive
 
 import (
+	"bytes"
 	"encoding/hex"
 	"fmt"
 	"github.com/btcsuite/btcd/btcec/v2"
@@ -510,6 +511,9 @@ func bridgeHistory(w *tracew.Writer, seed int64, run, depth int, mode, network s
 		e := make([]byte, 20)
 		r.Read(e)
 		g.evms = append(g.evms, e)
+	}
+	if r.Intn(3) == 0 { // boundary EVM addresses: all zeros, all ones
+		g.evms[r.Intn(3)] = bytes.Repeat([]byte{[]byte{0, 0xff}[r.Intn(2)]}, 20)
 	}
 	if err := s.EmitBridgeInit(); err != nil {
 		return err
